@@ -28,7 +28,7 @@ def build(d, bs4, name_map=None):
                     local = st(a['local'])
                     p = key[:-len(local) - 1] if key.endswith(':' + local) else None
                     key = bs4.element.NamespacedAttribute(p, local, st(a['ns']))
-                if 'odd' in a:
+                if a.get('odd'):
                     val = odd_value(a['odd'])
                 else:
                     val = st(a['v'])
